@@ -120,8 +120,12 @@ def judge(ctx, p, outcome):
     slots = [evoscript.unq(a) for a in args[2:14]]
     grid, site, arm = ctx.int_field(args[14]), ctx.int_field(args[15]), ctx.int_field(args[19])
     given = c.get("lc", "LC")
-    if lc != str.__str__(given):
-        ctx.violate("C13: the command does not name the given liquid class")
+    if ctx.symbolic:
+        from symex.strings import field_equals
+        same = field_equals(ctx, lc, given)
+    else:
+        same = lc == given
+    ctx.prove(same, "C13: the command does not name the given liquid class")
     if ctx.symbolic and hasattr(given, "flag"):
         from symex import core
         ctx.prove(ctx.not_(core.SBool(ctx, given.flag(";"))), "C13: a separator inside the liquid class was accepted")
